@@ -13,7 +13,8 @@ Both are necessary conditions of "never writes outside the library's own allocat
 decided from the expression trees and the CFG, nothing is evaluated on sample inputs.
 """
 from ..ir import strip_casts, const_of, walk, show, kids
-from ..graph import find_path
+from ..graph import find_path, ev_dominates, control_deps_transitive
+from ..export import AnalysisBroken
 from ..guard import var_of, bound_edges
 from .. import df
 
@@ -810,3 +811,171 @@ def r21(ctx, P):
                            'the entry is stored at entry_count without a bound: after a commit that failed (or with a decimation factor of 1) the count is already at the capacity and the store lands past the allocation',
                            w.render() if w else None)
     ctx.floor('appends to time-series index/summary buffers', n, 4)
+
+
+def _countdown_loops(fn):
+    """(cond block, counter name) of every loop `while (n)`, `while (n > 0)`, `while (n != 0)` whose counter is decremented."""
+    out = []
+    for b in fn.blocks.values():
+        c = strip_casts(b.cond) if b.cond is not None else None
+        if c is None:
+            continue
+        name = None
+        if c.get('op') == 'ref':
+            name = c.get('name')
+        elif c.get('op') == 'bin' and c['o'] in ('>', '!=') and const_of(c['k'][1]) == 0 and strip_casts(c['k'][0]).get('op') == 'ref':
+            name = strip_casts(c['k'][0]).get('name')
+        if name is None:
+            continue
+        t = [s for s, l in b.succs if l == 'T']
+        if not t:
+            continue
+        # a loop: the condition block is reachable from its own true edge
+        seen, work = set(), [t[0]]
+        while work:
+            x = work.pop()
+            if x.id in seen:
+                continue
+            seen.add(x.id)
+            if x is b:
+                continue
+            work.extend(s for s, _ in x.succs)
+        if b.id in seen:
+            body = seen - {b.id}
+            out.append((b, name, body))
+    return out
+
+
+def r22(ctx, P):
+    """a walking pointer is stored through only while the count that bounds it is still positive"""
+    n = 0
+    for fn in P.all_functions():
+        if not fn.file.startswith('src/'):
+            continue
+        for head, cnt, body in _countdown_loops(fn):
+            # the loop exits (F edge) reach blocks outside: restrict the body to blocks that can reach the head again
+            decs, walkers, stores = [], set(), []
+            for bid in body:
+                for ev in fn.blocks[bid].events:
+                    if ev.k != 'store':
+                        continue
+                    lhs, rhs, o = ev.store_parts()
+                    l0 = strip_casts(lhs)
+                    if l0.get('op') == 'ref' and l0.get('name') == cnt and o in ('-=', 'pre--', 'post--'):
+                        decs.append(ev)
+                    if l0.get('op') == 'ref' and l0.get('t', '').startswith('p:') and not l0.get('t', '').startswith('p:c:') and o in ('+=', 'pre++', 'post++'):
+                        walkers.add(l0.get('name'))
+            if not decs or not walkers:
+                continue
+            for bid in body:
+                for ev in fn.blocks[bid].events:
+                    if ev.k != 'store':
+                        continue
+                    l0 = strip_casts(ev.store_parts()[0])
+                    if l0.get('op') in ('un', 'sub') and (l0.get('op') == 'sub' or l0.get('o') == '*'):
+                        names = {m.get('name') for m in walk(l0['k'][0]) if m.get('op') == 'ref'}
+                        if names & walkers:
+                            stores.append((ev, sorted(names & walkers)[0]))
+            for ev, wname in stores:
+                n += 1
+                ctx.saw(fn, 1)
+                w = None
+                for d in decs:
+                    w = find_path(fn, d, lambda e2, facts: 'target' if e2 is ev else None, refine=False,
+                                  edge_ok=lambda b_, s_, label: s_ is not head and not (
+                                      label in ('T', 'F') and b_.cond is not None and
+                                      any(m.get('op') == 'ref' and m.get('name') == cnt for m in walk(b_.cond))))
+                    if w is not None:
+                        break
+                ctx.ob('C10.22', w is None, fn.name, 'store through %s in the `%s` loop' % (wname, cnt), ev.where(),
+                       'the loop test of %s lies between every decrement and this store' % cnt if w is None else
+                       'the store is reached after %s was decremented without testing it again: when the count reaches 0 one more byte is written, past the extent the caller provided' % cnt,
+                       w.render() if w else None)
+    ctx.floor('stores through a walking pointer in count-down loops', n, 1)
+
+
+def r23(ctx, P):
+    """scratch buffers of the level-0 statistics are sized by the bound their fill is limited by"""
+    n = 0
+    for fn in P.all_functions():
+        allocs = list(fn.calls('jls_core_f64_buf_alloc'))
+        if not allocs:
+            continue
+        ctx.saw(fn)
+        for al in allocs:
+            cap = show(strip_casts(al.args[0]))
+            tgt = strip_casts(al.args[1])
+            field = None
+            for m in walk(tgt):
+                if m.get('op') == 'member':
+                    field = m.get('field')
+                    break
+            if field is None:
+                raise AnalysisBroken('%s: scratch buffer of jls_core_f64_buf_alloc not a field' % fn.name)
+
+            def mentions(e):
+                return any(m.get('op') == 'member' and m.get('field') == 'start' and
+                           any(q.get('op') == 'member' and q.get('field') == field for q in walk(m['k'][0])) for m in walk(e or {}))
+            # 1. handed to a filler with an explicit count
+            for c in fn.calls():
+                if c is al or c.callee in ('jls_core_f64_buf_alloc', 'jls_core_f64_buf_free'):
+                    continue
+                if not any(mentions(a) for a in c.args):
+                    continue
+                n += 1
+                counts = [show(strip_casts(a)) for a in c.args if not mentions(a)]
+                ok = cap in counts
+                ctx.ob('C10.23', ok, fn.name, '%s(%s->start, count)' % (c.callee, field), c.where(),
+                       'filled with exactly the count it was allocated for (%s)' % cap if ok else
+                       'the buffer was allocated for %s elements but the filler is given %s' % (cap, counts))
+            # 2. appended to through a counter
+            for ev in fn.stores():
+                lhs, rhs, o = ev.store_parts()
+                l0 = strip_casts(lhs)
+                if l0.get('op') != 'sub' or not mentions(l0['k'][0]):
+                    continue
+                idx = strip_casts(l0['k'][1])
+                if not (idx.get('op') == 'un' and idx.get('o') in ('post++', 'pre++') and strip_casts(idx['k'][0]).get('op') == 'ref'):
+                    n += 1
+                    ctx.ob('C10.23', False, fn.name, 'store into %s->start' % field, ev.where(), 'indexed store whose bound is not recognised: %s' % show(l0)[:60])
+                    continue
+                cnt = strip_casts(idx['k'][0]).get('name')
+                n += 1
+                # every counter X for which `X >= B` / `X == B` resets cnt (and X) to 0, with show(B) == cap
+                why = 'no reset of %s under a compare with the allocated length %s' % (cnt, cap)
+                ok = False
+                for b in fn.blocks.values():
+                    c = strip_casts(b.cond) if b.cond is not None else None
+                    if c is None or c.get('op') != 'bin' or c['o'] not in ('>=', '=='):
+                        continue
+                    x = strip_casts(c['k'][0])
+                    if x.get('op') != 'ref':
+                        continue
+                    bound = show(strip_casts(c['k'][1]))
+                    resets = set()
+                    for e2 in fn.stores():
+                        l2, r2, o2 = e2.store_parts()
+                        if strip_casts(l2).get('op') == 'ref' and o2 == '=' and const_of(r2 or {}) == 0 and \
+                                (b.id, 'T') in control_deps_transitive(fn, e2.block.id):
+                            resets.add(strip_casts(l2).get('name'))
+                    if not ({cnt, x.get('name')} <= resets):
+                        continue
+                    # X is advanced at least as often as cnt: an increment of X dominates the append
+                    xin = [e2 for e2 in fn.stores() if strip_casts(e2.store_parts()[0]).get('name') == x.get('name') and e2.store_parts()[2] in ('pre++', 'post++')]
+                    if x.get('name') != cnt and not any(ev_dominates(e2, ev) for e2 in xin):
+                        continue
+                    # the test follows the append in the same iteration (so the count never exceeds the bound at the next append)
+                    if bound != cap:
+                        why = '%s is reset when %s reaches %s, but the buffer holds %s elements' % (cnt, x.get('name'), bound, cap)
+                        continue
+                    # only ++ and = 0 change the two counters
+                    other = [e2 for e2 in fn.stores() if strip_casts(e2.store_parts()[0]).get('op') == 'ref' and strip_casts(e2.store_parts()[0]).get('name') in (cnt, x.get('name'))
+                             and not (e2.store_parts()[2] in ('pre++', 'post++') or (e2.store_parts()[2] == '=' and const_of(e2.store_parts()[1] or {}) == 0))]
+                    if other:
+                        why = '%s / %s are also changed at %s' % (cnt, x.get('name'), other[0].where())
+                        continue
+                    ok = True
+                    why = '%s <= %s < %s = allocated length at every append' % (cnt, x.get('name'), cap)
+                    break
+                ctx.ob('C10.23', ok, fn.name, 'append to %s->start[%s++]' % (field, cnt), ev.where(), why)
+    ctx.floor('uses of the f64 scratch buffers', n, 3)
